@@ -255,6 +255,13 @@ Error RACFGBuilder::on_instruction(InstNode* inst, InstControlFlow& cf, RAInstBu
               }
             }
 
+            // Do not use RegMem flag if the instruction writes the register and zero extends the write to bytes
+            // that are part of the virtual register. A memory operand wouldn't be extended - for example patching
+            // `add eax, 1` to `add dword [home], 1` would leave the upper half of a 64-bit virtual register intact.
+            if (Support::test(flags, RATiedFlags::kWrite) && (work_reg->reg_byte_mask() & op_rw_info.extend_byte_mask()) != 0u) {
+              flags &= ~(RATiedFlags::kUseRM | RATiedFlags::kOutRM);
+            }
+
             RegGroup group = work_reg->group();
             RegMask use_regs = _pass._available_regs[group] & allowed_regs;
             RegMask out_regs = use_regs;
